@@ -260,6 +260,22 @@ func runC02(c *Ctx) {
 		}
 		parseCase("legacy-maps", []byte(doc), "stream:legacy-maps")
 	}
+	// 5b. always: every legacy header followed by a memory map whose (executable) line is inverted,
+	// empty, huge or overlapping -- ranges the protobuf decoder never sees because these parsers build
+	// mappings themselves; the result must still be writable and copyable
+	for _, h := range heads {
+		for _, rng := range [][2]uint64{{0x500000, 0x400000}, {0x400000, 0x400000}, {0, ^uint64(0)}, {^uint64(0) - 0xfff, 0}, {0x400000, 0x400001}} {
+			for form := 0; form < 2; form++ {
+				doc := h
+				if form == 0 {
+					doc += "\nMAPPED_LIBRARIES:\n" + fmt.Sprintf("%08x-%08x r-xp 00000000 fd:01 1234 /bin/demo\n", rng[0], rng[1])
+				} else {
+					doc += "--- Memory map: ---\n" + fmt.Sprintf("%08x-%08x: /bin/demo\n", rng[0], rng[1])
+				}
+				parseCase("legacy-maps-odd", []byte(doc), "stream:legacy-maps-odd")
+			}
+		}
+	}
 	// 6. labels the decoder drops (a key with neither a string, a number nor a unit: what the encoder
 	// writes for a numeric label 0 without unit), on samples that keep no other label, with the key as
 	// the last entry of the string table: whatever the decoder leaves behind on such a sample must not
